@@ -133,4 +133,22 @@ def handleAsmX : List String → String
     | _, _, _, _ => "bad-op"
   | _ => "bad-op"
 
+def allClauses : List Clause :=
+  [.cxxLocal, .cLocal, .bufArgs, .bufExtra, .argDecl, .argCall, .pre, .call, .post, .ret, .retType, .owner]
+
+/-- `ovr <c|x> <entry index or -> <present update as 2 bits> <clause numbers named by the dictionary>` ->
+    one letter per clause of `allClauses`: `o` the merged statements return the dictionary's value, `b` the entry's -/
+def handleOvr : List String → String
+  | [lang, idx, bits, named] =>
+    let tbl := if lang == "c" then entriesC else entries
+    let e := if idx == "-" then Entry.default else tbl.getD idx.toNat! Entry.default
+    let mark : ClauseVal := [(77, [])]
+    let ovr := (natsOf named).filterMap (fun i => (allClauses[i]?).map (fun c => (c, mark)))
+    match bits.toList.map (· == '1') with
+    | [present, update] =>
+      let e' := localStmts present update ovr e
+      String.ofList (allClauses.map (fun c => if e'.get c == mark then 'o' else 'b'))
+    | _ => "bad-op"
+  | _ => "bad-op"
+
 end Driver
